@@ -35,6 +35,7 @@ func checkC01(w *World, r *Report) {
 	checkCursorReset(w, r, "C01.10")
 	checkStaticSearchExcludesWildcards(w, r, "C01.11")
 	checkReverseDefaults(w, r, "C01.12")
+	checkSkipStackReset(w, r, "C01.13")
 }
 
 // ---- C01.1 --------------------------------------------------------------------------------------------------
@@ -1174,5 +1175,64 @@ func checkReverseDefaults(w *World, r *Report, id string) {
 	}
 	for _, s := range sites {
 		ru.Check("path handed to the matcher by "+s.name, w.Pos(s.call.Pos()), "same defaulting of an empty path as the sibling entry points", s.defaults == any, fmt.Sprintf("defaultsEmptyPathToSlash=%v siblingsDo=%v", s.defaults, any))
+	}
+}
+
+// checkSkipStackReset: the stack of skipped alternatives lives in the pooled context. Each matcher must empty it before
+// it pushes to or pops from it, or the alternatives left by an earlier lookup on that context are resumed.
+func checkSkipStackReset(w *World, r *Report, id string) {
+	ru := r.Rule(id, "the stack of skipped alternatives starts empty: in both matchers the truncation `*c.skipNds = (*c.skipNds)[:0]` dominates every other use of c.skipNds", 2)
+	for _, fname := range []string{"lookupByPath", "lookupByDomain"} {
+		af := w.astFuncOf(modulePath, fname)
+		ctxName := ""
+		for _, f := range af.decl.Type.Params.List {
+			if st, ok := f.Type.(*ast.StarExpr); ok {
+				if idn, ok := st.X.(*ast.Ident); ok && idn.Name == "cTx" {
+					ctxName = f.Names[0].Name
+				}
+			}
+		}
+		stack := ctxName + ".skipNds"
+		var resetBlock *cfg.Block
+		resetIdx := -1
+		for _, b := range af.g.Blocks {
+			if !b.Live {
+				continue
+			}
+			for i, nd := range b.Nodes {
+				if as, ok := nd.(*ast.AssignStmt); ok && len(as.Lhs) == 1 && exprStr(as.Lhs[0]) == "*"+stack && exprStr(as.Rhs[0]) == "(*"+stack+")[:0]" {
+					if resetBlock == nil {
+						resetBlock, resetIdx = b, i
+					}
+				}
+			}
+		}
+		bad, nuse := "", 0
+		for _, b := range af.g.Blocks {
+			if !b.Live {
+				continue
+			}
+			for i, nd := range b.Nodes {
+				uses := false
+				ast.Inspect(nd, func(n ast.Node) bool {
+					if se, ok := n.(*ast.SelectorExpr); ok && exprStr(se) == stack {
+						uses = true
+					}
+					return true
+				})
+				if !uses || (b == resetBlock && i == resetIdx) {
+					continue
+				}
+				nuse++
+				ok := resetBlock != nil && (af.dominates(resetBlock, b) && (b != resetBlock || resetIdx < i))
+				if !ok && bad == "" {
+					bad = "use at " + w.Pos(nd.Pos()) + " is not preceded on every path by the truncation to length 0"
+				}
+			}
+		}
+		if nuse == 0 {
+			continue
+		}
+		ru.Check("skip stack in "+fname, w.Pos(af.decl.Pos()), "emptied before any push, pop or length test", bad == "" && resetBlock != nil, orDefault(bad, map[bool]string{true: fmt.Sprintf("%d uses, all after the reset", nuse), false: "no truncation of " + stack + " to length 0 in this matcher: alternatives left on the pooled context by an earlier lookup are resumed"}[resetBlock != nil]))
 	}
 }
